@@ -3,26 +3,35 @@
 EXTENDS Cli, Json, IOUtils, SequencesExt, FiniteSetsExt
 
 CloneModes ==
-  {mm \in [cmd : {"clone"}, out : {"absent", "regular", "bd_small", "bd_tail", "bd_equal", "bd_large"}, force : BOOLEAN, inplace : BOOLEAN,
+  {mm \in [cmd : {"clone"}, out : {"absent", "regular", "dangling", "bd_small", "bd_tail", "bd_equal", "bd_large"}, force : BOOLEAN, inplace : BOOLEAN,
            arch : {"valid", "invalid"}, pin : {"none", "match", "mismatch"}, nseeds : {0, 2}, stdin_seed : BOOLEAN,
-           verify_out : BOOLEAN, transport : {"local", "http"}, empty_input : {FALSE}, stale_tmp : {"none"}] :
+           verify_out : BOOLEAN, transport : {"local", "http"}, empty_input : {FALSE}, stale_tmp : {"none"},
+           late : {"none", "bad_chunk"}, race : {"none", "appears"}] :
      /\ (mm.arch = "invalid" => mm.pin = "none")
+     \* a dangling link is only ever refused here (what --force-create / --seed-output do through a link is the file system's business)
+     /\ (mm.out = "dangling" => ~mm.force /\ ~mm.inplace /\ mm.nseeds = 0 /\ ~mm.stdin_seed /\ ~mm.verify_out)
+     \* a damaged chunk: nothing else may provide it (no seeds; the runner gives an in-place output unrelated content), any output kind that proceeds
+     /\ (mm.late # "none" => mm.arch = "valid" /\ mm.pin # "mismatch" /\ mm.nseeds = 0 /\ ~mm.stdin_seed /\ mm.race = "none" /\ mm.out \notin {"bd_tail", "dangling"})
+     \* the other party can only be scheduled deterministically while the command waits for a server: http, output absent at the start
+     /\ (mm.race # "none" => mm.out = "absent" /\ mm.transport = "http" /\ mm.arch = "valid" /\ mm.pin # "mismatch" /\ mm.nseeds = 0 /\ ~mm.stdin_seed)
      \* keep the product focused: seeds / stdin / verification / http vary only for modes that proceed or are refused late
      /\ (mm.nseeds > 0 \/ mm.stdin_seed \/ mm.verify_out \/ mm.transport = "http") => (mm.arch = "valid" /\ mm.pin # "mismatch")}
 CompressModes ==
-  {[cmd |-> "compress", out |-> o, force |-> f, inplace |-> FALSE, arch |-> "valid", pin |-> "none", nseeds |-> 0, stdin_seed |-> s,
-    verify_out |-> FALSE, transport |-> "local", empty_input |-> e, stale_tmp |-> st]
-   : o \in {"absent", "regular"}, f \in BOOLEAN, s \in BOOLEAN, e \in BOOLEAN, st \in {"none", "longer", "shorter"}}
+  {mm \in [cmd : {"compress"}, out : {"absent", "regular", "dangling"}, force : BOOLEAN, inplace : {FALSE}, arch : {"valid"}, pin : {"none"}, nseeds : {0},
+           stdin_seed : BOOLEAN, verify_out : {FALSE}, transport : {"local"}, empty_input : BOOLEAN, stale_tmp : {"none", "longer", "shorter"},
+           late : {"none"}, race : {"none"}] :
+     \* compress --force-create through a dangling link creates the link's target: the file system's business, not a mode here
+     mm.out = "dangling" => ~mm.force}
 Modes == CloneModes \cup CompressModes
 
 Init == /\ m \in Modes
         /\ pc = IF m.cmd = "compress" THEN "open_output" ELSE "init_archive"
-        /\ touched = {} /\ exit = -1 /\ outstate = IF Exists(m) THEN "prior" ELSE "none"
+        /\ touched = {} /\ exit = -1 /\ outstate = (IF Exists(m) THEN "prior" ELSE "none") /\ appeared = FALSE
 Spec == Init /\ [][Next]_vars
 
 \* an absent output that is refused stays absent
 RefusalUntouchedMC == (Ended /\ exit = 1 /\ Refusal(m) # "none") => /\ \A h \in WriteHows : <<"output", h>> \notin touched
-                                             /\ outstate = (IF Exists(m) THEN "prior" ELSE "none")
+                                             /\ outstate = (IF ExistsAtOpen(m) THEN "prior" ELSE "none")
 Post == /\ TLCGet("stats").diameter >= 0
         /\ ndJsonSerialize(IOEnv.GEN_OUT, SetToSeq(Modes))
         /\ PrintT(<<"GENERATED", Cardinality(Modes)>>)
